@@ -96,3 +96,27 @@ def sorted_src(eng, st, lst, j):
 @spec_function()
 def str_le(eng, st, a, b):
     return sv_bool(get_s(eng.as_val(st, a).t) <= get_s(eng.as_val(st, b).t))
+
+
+@spec_function()
+def is_dict_str_float(eng, st, d):
+    """d is a dict whose keys are str and whose values are float"""
+    v = eng.as_val(st, d)
+    r = get_ref(v.t)
+    k = z3.Const("dsf_k", Val)
+    h = st.heap
+    return sv_bool(z3.And(eng.typ_is(SV(v.t, None), "dict"),
+                          z3.ForAll([k], z3.Implies(h.dhas(r, k), z3.And(smt.is_str(k), smt.is_real(h.dget(r, k)))),
+                                    patterns=[h.dhas(r, k)])))
+
+
+@spec_function()
+def str_starts_minus(eng, st, s):
+    x = get_s(eng.as_val(st, s).t)
+    return sv_bool(z3.SubString(x, 0, 1) == z3.StringVal("-"))
+
+
+@spec_function()
+def str_tail(eng, st, s):
+    x = get_s(eng.as_val(st, s).t)
+    return sv_str(z3.SubString(x, 1, z3.Length(x) - 1))
